@@ -74,7 +74,10 @@ size_t vg_buf_len;
 # define VCSTR_OK(p) ((p) != NULL && VCSTR_SHORT(p))
 # define VCSTR_LEN_IS(p, r) ((size_t) (r) == (size_t) VCSTR_SHORT_LEN(p))
 #else
-# define VCSTR_OK(p) ((VG_IN_TXT(p) && vg_txt[vg_txt_len] == 0) || (VG_IN_BUF(p) && vg_buf[vg_buf_len] == 0))
+/* (bytes are read through p, never through the ghost pointer: a ghost pointer that was only constrained
+ * by an assumption has no points-to information in cbmc and reads through it return arbitrary values) */
+# define VCSTR_OK(p) ((VG_IN_TXT(p) && VCSTR_B(p, vg_txt_len - __CPROVER_POINTER_OFFSET(p)) == 0) || \
+                      (VG_IN_BUF(p) && VCSTR_B(p, vg_buf_len - __CPROVER_POINTER_OFFSET(p)) == 0))
 # define VCSTR_LEN_IS(p, r) (VG_IN_TXT(p) ? (size_t) (r) == vg_txt_len - __CPROVER_POINTER_OFFSET(p) : \
                                            (size_t) (r) == vg_buf_len - __CPROVER_POINTER_OFFSET(p))
 #endif
@@ -95,8 +98,9 @@ static char *vg_search(const char *s, int c)
         return (char *) s + r;
     }
 #endif
-    __CPROVER_assume(__CPROVER_POINTER_OFFSET(s) <= r && r <= vg_txt_len && vg_txt[r] == (char) c);
-    return (char *) vg_txt + r;
+    /* r = offset in the text object; bytes are read through s (see VCSTR_OK) */
+    __CPROVER_assume(__CPROVER_POINTER_OFFSET(s) <= r && r <= vg_txt_len && s[r - __CPROVER_POINTER_OFFSET(s)] == (char) c);
+    return (char *) s + (r - __CPROVER_POINTER_OFFSET(s));
 }
 /* units whose function searches nothing but the ghost text define VERIF_STRCHR_TEXT_ONLY: then
  * "argument lies inside the text" is an obligation for every call and there is no other case */
